@@ -27,15 +27,20 @@ from .. import c12_ref as ref
 
 LEVEL = 'exploration'
 RULE = ('families: spline1d = 1-D grids n<=4 (thorough 5 for p<=2) x p in 0..3 x periodic +- x EVERY knotmultiplicity vector with entries in 1..p+1 '
-        '(interior knots; all n knots when periodic) x knotvalues uniform/graded x removedofs in {-,[0],[-1],[0,-1],[1]}, plus continuity in -p-1..p-1 '
-        'and shortened (auto-refined) knot vectors; spline2d = all pairs of per-direction configurations (n<=3 (thorough 4), p 0..3, periodic +-, default/C0/mixed '
-        'multiplicities, graded) plus removedofs patterns; struct = std/bernstein/lagrange/discont/legendre p 0..3 on 1-D n<=4 and 2-D n0,n1<=3 (thorough 4) grids x every '
-        'periodic subset x uniform refinement, 3-D 1x1x2 box; hier = refined_by(S1) for EVERY non-empty subset S1 of the <=4 base elements then refined_by(S2) for every '
-        'S2 of <=1 (thorough 2) level-1 elements, x h-std/th-std/h-spline/th-spline/discont; unstruct = unitsquare triangle/mixed n<=3, refined, hierarchical, '
-        'std/bernstein/lagrange/discont/bubble; trim = trimmed 1-D/2-D/triangle topologies (fixed level sets, maxrefine 0..2) with pruned std/spline/discont/lagrange; '
-        'multipatch = 2-patch and 3-patch L-shape x spline/std x patchcontinuous +- x p 0..3 x continuity x multiplicities/knotvalues; tensor = product topologies; '
-        'masked = basis[mask] for ALL masks when ndofs<=6, else a fixed family of 8 masks, in bool/int/slice spelling; partition = discontinuous_at_partition_interfaces for '
-        'all labelings (up to renaming) of <=4 elements.  non-trivial = distinct case whose basis has >=2 functions on >=2 elements or is derived from a parent (mask/partition)')
+        '(interior knots; all n knots when periodic) x knotvalues uniform/graded x removedofs in {-,[0],[-1],[0,-1],[1]}, plus continuity in -p-1..p-1, '
+        'an explicit periodic argument overruling the topology, and shortened (auto-refined) knot vectors; spline2d = ALL pairs of per-direction '
+        'configurations (n<=3 (thorough 4), p 0..3, periodic +-, default/C0/mixed multiplicities, graded) plus 4 removedofs patterns; struct = '
+        'std/bernstein/lagrange/discont/legendre/spline p 0..3 on 1-D n<=4 and 2-D n0,n1<=3 (thorough 4) grids x every periodic subset x uniform refinement, '
+        'boundaries of 2-D grids; box3d = 1x1x2 box (periodic +-, hierarchical), p<=2 (thorough 3); hier1d/hier2d = refined_by(S1) for EVERY non-empty subset S1 '
+        'of the <=4 base elements (1-D n<=4 periodic +-, 2-D 1x1,1x2,2x2,2x1p,2x2p) then refined_by(S2) for every S2 of <=1 (thorough 2) level-1 elements '
+        '(quick 2-D: second level only for |S1|<=2, non-periodic; p<=2; thorough 2-D: p=3 on one level and with |S2|<=1 for splines), x h-std/th-std/h-spline/th-spline/discont; '
+        'unstruct = unitsquare triangle/mixed n<=3, refined, hierarchical (2 triangles: two levels; 8 triangles / 6 mixed: one level), std/bernstein/lagrange/discont/bubble; '
+        'trim = 62 (thorough 96) trimmed 1-D/2-D/triangle topologies (5 level-set shapes, maxrefine 1..2 (thorough 0..2), periodic +-) with pruned '
+        'std/spline/discont/lagrange/bernstein/legendre/bubble (thorough: hierarchical refinement after trimming); multipatch = 2-patch and 3-patch L-shape, nelems 1..2 (thorough 3) '
+        'x spline/std x patchcontinuous +- x p 0..3 x continuity -p-1..p-1 x every interior multiplicity vector x graded knotvalues, hierarchical; tensor = products A*B of 6x4 '
+        'factor topologies (line, periodic line, hierarchical line, 2x1 grid, triangles); masked = basis[mask] for ALL 2^n masks when ndofs<=6 (plus int/slice spellings), else a fixed '
+        'family of 9 masks and 5 slices, on 175 (thorough 248) parent bases of every class; partition = discontinuous_at_partition_interfaces for all labelings (up to renaming, <=3 parts) '
+        'of <=4 elements.  non-trivial = distinct case whose basis has >=2 functions on >=2 elements, or that is derived from a parent (mask/partition)')
 ASSUMPTIONS = ['numpy polynomial evaluation in the documented nutils_poly coefficient order and Cox-de Boor B-splines are the reference semantics',
                'sample points, element index and element-local coordinates are taken from topo.sample/f_index/f_coords (covered by C10/C11)',
                'level sets of the trimmed topologies keep cuts away from vertices; graded knot values are (0,1,3,7,15)',
@@ -72,7 +77,6 @@ def _removals(nd):
 
 
 def fam_spline1d(tier):
-    nmax = 4
     for n in range(1, (5 if tier == 'thorough' else 4) + 1):
         for p in range(0, 4):
             if n == 5 and p > 2:
